@@ -20,7 +20,7 @@ pub struct Comp {
 
 #[derive(Clone, Debug, Serialize, Deserialize)]
 pub enum Case {
-    /// seed and path; `style`: bit0 = capital M, bit1 = trailing slash
+    /// seed and path; `style`: bit0 = capital M, bit1 = trailing slash, bits 2.. = where the two-leg walk is cut
     Path { seed: Bytes, path: Vec<Comp>, style: u8 },
     /// corrupted xprv (private = true) or xpub string of the key at `path`
     Corrupt { seed: Bytes, path: Vec<u32>, private: bool, how: Corrupt },
@@ -105,7 +105,7 @@ impl Property for C08 {
     const ID: &'static str = "C08";
 
     fn rule() -> String {
-        "Seeds of 16..64 bytes and the non-standard lengths 1, 8, 15, 65, 100, 1000; child indices 0, 1, 2^31-1, 2^31, 2^31+1, 2^32-1 and uniform; paths of depth 1..8 (up to 255 in the thorough tier) rendered with m/M, the hardened markers ' h H and an optional trailing slash; corrupted xprv/xpub strings (character replaced, payload byte changed under the old checksum, checksum byte changed, length changed, character dropped/appended); malformed path text. Oracle: reference BIP32 (HMAC-SHA512, CKDpriv, CKDpub, fingerprints, Base58Check serialisation) on num-bigint, validated against BIP32 test vectors 1-3: every step's key, chain code, depth, index, parent fingerprint, xprv and xpub string must match; derive_from_path(text) = iterated derive; public derivation from the neutered parent = neutering the private child; hardened derivation on an xpub is refused; from_string(to_string) preserves every field; every corrupted string is rejected. Non-trivial = path mixing hardened and normal components, an index at a boundary, or a corruption class; distinct by hash of the serialised case.".into()
+        "Seeds of 16..64 bytes and the non-standard lengths 1, 8, 15, 65, 100, 1000; child indices 0, 1, 2^31-1, 2^31, 2^31+1, 2^32-1 and uniform; paths of depth 1..8 (up to 255 in the thorough tier) rendered with m/M, the hardened markers ' h H and an optional trailing slash; corrupted xprv/xpub strings (character replaced, payload byte changed under the old checksum, checksum byte changed, length changed, character dropped/appended); malformed path text. Oracle: reference BIP32 (HMAC-SHA512, CKDpriv, CKDpub, fingerprints, Base58Check serialisation) on num-bigint, validated against BIP32 test vectors 1-3: every step's key, chain code, depth, index, parent fingerprint, xprv and xpub string must match; derive_from_path(text) = iterated derive, also when the path is walked in two legs so that the second derive_from_path starts from a non-master key (derived, or parsed from its string; privately and publicly); public derivation from the neutered parent = neutering the private child; hardened derivation on an xpub is refused; from_string(to_string) preserves every field; every corrupted string is rejected. Non-trivial = path mixing hardened and normal components, an index at a boundary, or a corruption class; distinct by hash of the serialised case.".into()
     }
 
     fn assumptions() -> Vec<String> {
@@ -135,7 +135,7 @@ impl Property for C08 {
     fn strategy(_tier: Tier) -> BoxedStrategy<Case> {
         let comp = (index_strategy(), 0u8..3).prop_map(|(index, marker)| Comp { index, marker });
         prop_oneof![
-            5 => (seed_strategy(), prop::collection::vec(comp, 1..9), 0u8..4).prop_map(|(seed, path, style)| Case::Path { seed, path, style }),
+            5 => (seed_strategy(), prop::collection::vec(comp, 1..9), any::<u8>()).prop_map(|(seed, path, style)| Case::Path { seed, path, style }),
             6 => (seed_strategy(), prop::collection::vec(index_strategy(), 0..3), any::<bool>(), prop_oneof![
                     4 => (any::<u16>(), 0u8..58).prop_map(|(p, c)| Corrupt::Char(p, c)),
                     3 => (any::<u16>(), any::<u8>()).prop_map(|(p, x)| Corrupt::PayloadByte(p, x)),
@@ -229,6 +229,35 @@ impl Property for C08 {
                 let by_text = lib_call("derive_from_path", || ExtendedPrivateKey::from_seed(&sd).unwrap().derive_from_path(&text))?.map_err(|e| failure("derive_from_path", format!("Err({}) for {:?}", e, text), "Ok"))?;
                 compare_priv(&by_text, &rcur, "derive_from_path")?;
                 ensure!(bip32::parse_path(&text).is_some(), "harness_self_check", format!("reference cannot parse {:?}", text), "valid path");
+                // the path in two legs: the second leg starts from a key that is not a master key (reached by text, and parsed from its string)
+                if path.len() >= 2 {
+                    let cut = 1 + (*style as usize >> 2) % (path.len() - 1);
+                    let (head, tail) = (render(&path[..cut], *style & 1), render(&path[cut..], *style));
+                    let mut rmid = rm.clone();
+                    let mut ok = true;
+                    for comp in &path[..cut] {
+                        match bip32::derive(&rmid, comp.index) {
+                            Some(n) => rmid = n,
+                            None => ok = false,
+                        }
+                    }
+                    if ok {
+                        let mid = lib_call("derive_from_path(first leg)", || ExtendedPrivateKey::from_seed(&sd).unwrap().derive_from_path(&head))?.map_err(|e| failure("derive_from_path", format!("Err({}) for {:?}", e, head), "Ok"))?;
+                        compare_priv(&mid, &rmid, "derive_from_path_first_leg")?;
+                        let end = lib_call("derive_from_path(second leg)", || mid.derive_from_path(&tail))?.map_err(|e| failure("derive_from_path_from_child", format!("Err({}) for {:?} from depth {}", e, tail, cut), "Ok"))?;
+                        compare_priv(&end, &rcur, "derive_from_path_from_child")?;
+                        let parsed = lib_call("xprv from_string", || ExtendedPrivateKey::from_string(&bip32::to_string(&rmid)))?.map_err(|e| failure("valid_xprv_accepted", format!("Err({})", e), "Ok"))?;
+                        let end2 = lib_call("derive_from_path(from parsed)", || parsed.derive_from_path(&tail))?.map_err(|e| failure("derive_from_path_from_parsed", format!("Err({})", e), "Ok"))?;
+                        compare_priv(&end2, &rcur, "derive_from_path_from_parsed")?;
+                        if path[cut..].iter().all(|c| c.index < 0x8000_0000) {
+                            let midp = lib_call("from_xpriv", || ExtendedPublicKey::from_xpriv(&mid))?;
+                            let endp = lib_call("xpub derive_from_path(second leg)", || midp.derive_from_path(&tail))?.map_err(|e| failure("xpub_derive_from_path_from_child", format!("Err({})", e), "Ok"))?;
+                            compare_pub(&endp, &rcur, "xpub_derive_from_path_from_child")?;
+                            ensure_eq!(endp.to_string().map_err(|e| e.to_string()), lib_call("from_xpriv", || ExtendedPublicKey::from_xpriv(&end))?.to_string().map_err(|e| e.to_string()), "neutered_path_child_equals_public_path_child");
+                        }
+                        o.label("path-in-two-legs");
+                    }
+                }
                 // public path derivation
                 let xp = ExtendedPublicKey::from_seed(&sd).map_err(|e| failure("xpub_from_seed", e.to_string(), "Ok"))?;
                 let pub_text = lib_call("xpub derive_from_path", || xp.derive_from_path(&text))?;
